@@ -29,7 +29,7 @@ LEVEL = 'other'
 ENGINES = ['A', 'F']
 FUNCTIONS = ['OperatorDict.__getitem__ / UnaryOperatorDict.__getitem__ / Registry.__getitem__ (membership test before do_codegen/do_compile)',
              'OperatorDict.__call__/_call_binary', 'do_codegen', 'do_compile', 'lambdify', 'func_builder']
-ASSUMPTIONS = ['sequential calls only', 'coefficient kinds: solver terms (stand for every real value), int, float, Fraction, numpy float64 arrays, sympy symbols']
+ASSUMPTIONS = ['sequential calls only', 'coefficient kinds: solver terms (stand for every real value), int, float, Fraction, numpy float64 arrays, sympy symbols, all-zero and special values (0, 1, -1, bools, 0.0, numpy scalars); plain-number operands: a solver term and 17 enumerated special values/types']
 BOUNDS = {'quick': '29 operators + a registered function x grade-union / random sparse patterns d<=3 x 6 coefficient kinds x histories of <=7 repeats with other patterns interleaved; long histories (200-400 other patterns); histories with failing evaluations / failing generations; per (operator, pattern) generation count',
           'thorough': 'more patterns per operator, 3x longer long-histories'}
 OUTSIDE = ['concurrent first calls (threads)', 'coefficient types not listed']
@@ -40,7 +40,7 @@ CHUNKS_PER_WORKER = 8
 BIN = ['gp', 'op', 'ip', 'lc', 'rc', 'sp', 'cp', 'acp', 'rp', 'add', 'sub', 'sw', 'proj', 'div']
 UN = ['neg', 'reverse', 'involute', 'conjugate', 'hodge', 'unhodge', 'polarity', 'unpolarity', 'normsq', 'inv',
       'outerexp', 'outersin', 'outercos', 'outertan', 'sqrt']
-KINDS = ['sv', 'int', 'float', 'fraction', 'ndarray', 'sympy']
+KINDS = ['sv', 'int', 'float', 'fraction', 'ndarray', 'sympy', 'zeros', 'special']
 
 
 def cases(tier, seed):
@@ -58,6 +58,12 @@ def cases(tier, seed):
                 if op == 'sqrt':
                     ka = [0, rng.randrange(1, 2 ** d)]
                 out.append(dict(kind='repeat', cfg=cfg, op=op, ka=ka, kb=kb, other=list(rng.choice(P)), hseed=rng.randrange(10 ** 6)))
+    # plain numbers as operands (either side): the cache key may not depend on the VALUE or type of the number
+    for cfg in cfgs:
+        d = sum(cfg.values())
+        for op in BIN:
+            for _ in range(1 if tier == 'quick' else 6):
+                out.append(dict(kind='scalar-operand', cfg=cfg, op=op, ka=list(rng.choice(pat.RND(d, 6, rng, max_len=3, min_len=1))), hseed=rng.randrange(10 ** 6)))
     # registered(symbolic=True) functions of one and three arguments (the n-ary call path), and a counting wrapper
     for cfg in (dict(p=2), dict(p=2, r=1), dict(p=3)):
         for op in ('registered-sym1', 'registered-sym3', 'wrapped-gp', 'wrapped-inv', 'wrapped-registered'):
@@ -243,7 +249,69 @@ def _run_long(desc, V):
     return claims
 
 
+def _special_scalars(V, tag):
+    import sympy
+    return [('sv', V.var(f'{tag}_s')), ('int0', 0), ('int1', 1), ('int-1', -1), ('True', True), ('False', False), ('float0', 0.0), ('float-0', -0.0),
+            ('float', 2.5), ('Fraction0', Fraction(0)), ('Fraction', Fraction(3, 2)), ('np.float64(0)', np.float64(0)), ('np.int64(0)', np.int64(0)),
+            ('np.int64', np.int64(3)), ('sympy0', sympy.Integer(0)), ('sympy-symbol', sympy.Symbol('s')), ('int-big', 10 ** 20), ('sv2', V.var(f'{tag}_t'))]
+
+
+def _run_scalar(desc, V):
+    from kingdon.multivector import MultiVector
+    kapi.install_recorder()
+    kapi.reset_generation_counts()
+    alg = make_alg(desc['cfg'])
+    op = desc['op']
+    opdict = getattr(alg, op)
+    ka = tuple(desc['ka'])
+    claims = [Note('nontrivial', '')]
+
+    def call(side, s, tag):
+        # solver-term coefficients with a solver-term / exact number; plain ints with the numpy / sympy numbers
+        # (a proxy cannot be mixed with those types; the events in question do not depend on the coefficients)
+        if isinstance(s, (sym._SVOps, int, Fraction)) and not isinstance(s, np.integer):
+            x = MultiVector.fromkeysvalues(alg, ka, [V.var(f'{tag}x{i}') for i in range(len(ka))])
+        else:
+            x = MultiVector.fromkeysvalues(alg, ka, [2 + i for i in range(len(ka))])
+        return opdict(x, s) if side == 'right' else opdict(s, x)
+
+    for side in ('right', 'left'):
+        try:
+            call(side, 5, f'first{side}')                  # first call: events allowed
+        except ZeroDivisionError:
+            continue
+        n_entries = len(opdict)
+        for j, (name, sval) in enumerate(_special_scalars(V, side)):
+            before = kapi.recorder_counts()
+            try:
+                call(side, sval, f'{side}{j}')
+            except (ZeroDivisionError, FloatingPointError):
+                pass
+            except (TypeError, ValueError):
+                # e.g. numpy refuses integer ** -1 in a generated division: not an event question
+                if 'sympy' in name or 'np.' in name:
+                    pass
+                else:
+                    raise
+            after = kapi.recorder_counts()
+            diff = {k: after[k] - before[k] for k in after if after[k] != before[k]}
+            if diff:
+                claims.append(Fail(f'events-on-repeat[{side}:{name}]', f'{op}: multivector keys {ka} with the plain number {name} on the {side}: generated again {diff}',
+                                   fkey=f'scalar-operand|{op}|events'))
+            if len(opdict) != n_entries:
+                claims.append(Fail(f'cache-grew[{side}:{name}]', f'len(alg.{op}) went from {n_entries} to {len(opdict)} for the plain number {name} on the {side}',
+                                   fkey=f'scalar-operand|{op}|cache-size'))
+                n_entries = len(opdict)
+    claims += _twice_claims(alg, op)
+    claims.append(Eq('history-completed', 1, 1))
+    return claims
+
+
 def _values(kind, V, tag, n, rng):
+    if kind == 'zeros':
+        return [0 for _ in range(n)]
+    if kind == 'special':
+        return [rng.choice([0, 1, -1, True, False, 0.0, Fraction(0), np.float64(0.0), np.int64(0)]) for _ in range(n)]
     if kind == 'sv':
         return [V.var(f'{tag}_{i}') for i in range(n)]
     if kind == 'int':
@@ -267,6 +335,8 @@ def run_case(desc, V):
         return _run_failing(desc, V)
     if desc['kind'] == 'nary-history':
         return _run_nary(desc, V)
+    if desc['kind'] == 'scalar-operand':
+        return _run_scalar(desc, V)
     from kingdon.multivector import MultiVector
     kapi.install_recorder()
     kapi.reset_generation_counts()
